@@ -216,10 +216,10 @@ var safeRetryArms = map[string]bool{
 // policy method, the decision at the switch and the retries performed.
 type errPath struct {
 	arm, idem, policy, dec string
-	retries               []string // "true"/"false"/"?" per executeInternal call (the next argument)
-	incs                  int
-	ret                   AV
-	pos                   string
+	retries                []string // "true"/"false"/"?" per executeInternal call (the next argument)
+	incs                   int
+	ret                    AV
+	pos                    string
 }
 
 func runErrorSim(p *Prog, rr *reqRoles, forceDecision map[string]constant.Value) ([]errPath, int) {
@@ -312,6 +312,7 @@ func runErrorSim(p *Prog, rr *reqRoles, forceDecision map[string]constant.Value)
 }
 
 func checkC04(p *Prog, r *Report) {
+	requireRecognisedDispatch(p)
 	r.NotCov = append(r.NotCov,
 		"the classifier's verdict on statement text (C06)",
 		"what a backend actually applied; user-supplied RetryPolicy implementations",
@@ -418,6 +419,7 @@ func checkC04(p *Prog, r *Report) {
 	c04Initial(p, r, rr)
 	sendResult(p, r, "C04.send-result", rr)
 	c12MetadataBeforeReply(p, r, "C04.metadata-before-reply")
+	resultThreading(p, r, "C04.result-threading", "proxy", "parser")
 }
 
 // classifier models shared by check/batch: fork into (true,nil) (false,nil) (false,err)
@@ -766,19 +768,18 @@ func c04Initial(p *Prog, r *Report, rr *reqRoles) {
 		fatalf("anchor: no client method constructs a request")
 	}
 	// which parameter feeds request.state?
-	stateParam := -1
+	var stateSlot paramSlot
+	haveSlot := false
 	eachInstr(execFn, func(in ssa.Instruction) {
 		if st, ok := in.(*ssa.Store); ok {
 			if fa, ok := st.Addr.(*ssa.FieldAddr); ok && fieldOfAddr(fa) == rr.stateF {
-				for i, par := range execFn.Params {
-					if st.Val == par {
-						stateParam = i
-					}
+				if sl, ok := slotOfValue(execFn, st.Val); ok {
+					stateSlot, haveSlot = sl, true
 				}
 			}
 		}
 	})
-	if stateParam < 0 {
+	if !haveSlot {
 		r.bad(rule, "construct:"+execFn.Name(), p.Pos(execFn.Pos()), "the initial idempotency state of a request is not taken from the caller")
 		return
 	}
@@ -791,9 +792,12 @@ func c04Initial(p *Prog, r *Report, rr *reqRoles) {
 				return
 			}
 			sites++
-			arg := c.Common().Args[stateParam]
+			arg := slotArg(c, stateSlot)
 			key := fmt.Sprintf("site:%s", fn.Name())
 			var bad []string
+			if arg == nil {
+				bad = append(bad, "the initial state handed to the request constructor could not be resolved at this site")
+			}
 			for _, o := range origins(arg) {
 				switch x := o.(type) {
 				case *ssa.Const:
